@@ -40,10 +40,13 @@ impl Property for C10 {
         "C10"
     }
     fn rule(&self) -> String {
-        "Metamorphic. Shape asb: A and B from the clean sentence generator (number words of every class, speller phrases, ordinals, conjunction/separator/linking/ordinary words, punctuation; for French also the determiner+neuf shapes of the documented new/nine heuristic, for English `o`), S = ' ' + 3 or 4 ordinary words (no number, linking, separator words; not the French determiners un/le/du/l'/numéro) + '. '; any threshold: rewrite(A S B, t) == rewrite(A, t) ++ S ++ rewrite(B, t). Shape punct: rewrite(spell(a) p spell(b), 0) == a p b for a, b < 10^12 in random variants and p in {', ', '; ', ': ', '! ', ' / ', ' ( ', '… ', '. ', ',', '?', ' ; ', ') '}. Whole-run procedure: documents of W ordinary words (2W tokens just above 2^10..2^16, 1000, 10 000, 50 000; thorough up to 2^20) followed by a tail in which small numbers are linked across punctuation / a linking word: rewrite(prefix tail, t) == prefix ++ rewrite(tail, t) for t in {10, 0}. Non-trivial = distinct asb cases where A contains a number and B contains a word whose reading can depend on earlier state (fr neuf after le/du/l'/un, en o, a leading small number at t > 0) or A ends with the conjunction / separator word; plus all punct cases with both numbers >= 20.".into()
+        "Metamorphic. Shape asb: A and B from the clean sentence generator (number words of every class, speller phrases, ordinals, conjunction/separator/linking/ordinary words, punctuation; for French also the determiner+neuf shapes of the documented new/nine heuristic, for English `o`), S = ' ' + 3 or 4 ordinary words (no number, linking, separator words; not the French determiners un/le/du/l'/numéro) + '. '; any threshold: rewrite(A S B, t) == rewrite(A, t) ++ S ++ rewrite(B, t). Shape punct: rewrite(spell(a) p spell(b), 0) == a p b for a, b < 10^12 in random variants and p in {', ', '; ', ': ', '! ', ' / ', ' ( ', '… ', '. ', ',', '?', ' ; ', ') ', typographic quotes}. Enumerated: every punctuation mark / symbol (all non-alphanumeric, non-whitespace, non-control chars of ASCII, Latin-1 incl. U+00D7 / U+00F7, General Punctuation, currency, letterlike, arrows, mathematical, technical, box / geometric / dingbat, supplemental punctuation, CJK and full-width punctuation, emoticons; '-' and ''' excepted) x glued / spaced on both / either side x (20,5), (100,2), (3000,400) x 7 languages. Whole-run procedure: documents of W ordinary words (2W tokens just above 2^10..2^16, 1000, 10 000, 50 000; thorough up to 2^20) followed by a tail in which small numbers are linked across punctuation / a linking word: rewrite(prefix tail, t) == prefix ++ rewrite(tail, t) for t in {10, 0}. Non-trivial = distinct asb cases where A contains a number and B contains a word whose reading can depend on earlier state (fr neuf after le/du/l'/un, en o, a leading small number at t > 0) or A ends with the conjunction / separator word; plus all punct cases with both numbers >= 20.".into()
     }
     fn assumptions(&self) -> Vec<String> {
         vec!["the French determiners un/le/du/l' and `numéro` act at distance <= 3 by documented design (new/nine heuristic), so they are not 'ordinary' separator words".into()]
+    }
+    fn exhaustive_subdomains(&self, _tier: Tier) -> Vec<String> {
+        vec![format!("punct: all {} punctuation marks / symbols of the listed Unicode blocks x 4 spacings x 3 number pairs x 7 languages", super::common::symbol_chars().len())]
     }
     fn strategy(&self, _tier: Tier) -> BoxedStrategy<Case> {
         let asb = lang_strategy().prop_flat_map(|lang| {
@@ -98,6 +101,26 @@ impl Property for C10 {
     }
     fn cases(&self, tier: Tier) -> u64 {
         tier.pick(2_000_000, 25_000_000)
+    }
+    fn enumerate(&self, _tier: Tier, shard: usize, nshards: usize, emit: &mut Emit<Case>) {
+        // every punctuation mark / symbol of the listed Unicode blocks, glued or spaced, between two numbers that
+        // would combine without it, in every language
+        let syms = super::common::symbol_chars();
+        const PAIRS: [(u64, u64); 3] = [(20, 5), (100, 2), (3000, 400)];
+        for i in shard_range(syms.len() as u64 * 7 * 4 * 3, shard, nshards) {
+            let ch = syms[(i / 84) as usize];
+            let lang = LANGS[(i % 7) as usize].to_string();
+            let sep = match (i / 7) % 4 {
+                0 => ch.to_string(),
+                1 => format!(" {} ", ch),
+                2 => format!("{} ", ch),
+                _ => format!(" {}", ch),
+            };
+            let (a, b) = PAIRS[((i / 28) % 3) as usize];
+            if !emit(Case { lang, shape: "punct".into(), a_text: String::new(), sep, b_text: String::new(), th_bits: 0, a, b, ca: vec![], cb: vec![] }) {
+                return;
+            }
+        }
     }
     fn extra(&self, tier: Tier, _seed: u64, obs: &mut Obs) -> Result<(), (String, serde_json::Value)> {
         // long documents: a prefix of many ordinary words must not change how the tail is read
@@ -154,7 +177,11 @@ impl Property for C10 {
             if out != want {
                 return Err(format!("[{}] punctuation must keep two numbers apart: {:?} -> {:?}, expected {:?}", l, text, out, want));
             }
-            obs.label(&format!("punct:{:?}", c.sep));
+            if PUNCT_SEPS.contains(&c.sep.as_str()) {
+                obs.label(&format!("punct:{:?}", c.sep));
+            } else {
+                obs.label("punct:enumerated-symbol");
+            }
             if c.a >= 20 && c.b >= 20 {
                 obs.nontrivial(&(l, &text));
             }
